@@ -6,6 +6,7 @@
 //    (See accompanying file LICENSE_1_0.txt or copy at
 //          https://www.boost.org/LICENSE_1_0.txt)
 
+#include <algorithm>
 #include <cstddef>
 #include <functional>
 #include <iostream>
@@ -90,14 +91,18 @@ namespace parmcb {
                 /*
                  * Heuristic in case number of signed edges is small compared to the number of vertices.
                  */
+                // Order the signed edges by forest index. The order of a std::set<Edge> depends on
+                // memory addresses, which may differ between processes.
                 std::map<Edge, std::set<Edge>> hidden_edges_per_edge;
-                std::vector<Edge> signed_edges_as_vector;
-                std::set<Edge> tmp_signed_edges = signed_edges;
-                while (!tmp_signed_edges.empty()) {
-                    auto bit = tmp_signed_edges.begin();
-                    hidden_edges_per_edge.insert(std::make_pair(*bit, tmp_signed_edges));
-                    signed_edges_as_vector.push_back(*bit);
-                    tmp_signed_edges.erase(bit);
+                std::vector<Edge> signed_edges_as_vector(signed_edges.begin(), signed_edges.end());
+                std::sort(signed_edges_as_vector.begin(), signed_edges_as_vector.end(),
+                        [&forest_index](const Edge &e1, const Edge &e2) {
+                            return forest_index(e1) < forest_index(e2);
+                        });
+                for (std::size_t i = 0; i < signed_edges_as_vector.size(); i++) {
+                    hidden_edges_per_edge.insert(
+                            std::make_pair(signed_edges_as_vector[i],
+                                    std::set<Edge>(signed_edges_as_vector.begin() + i, signed_edges_as_vector.end())));
                 }
 
                 std::vector<Edge> local_signed_edges_as_vector;
